@@ -32,4 +32,13 @@ CHECKS = {
         "column classes enumerate.",
    note="Trusted base: Python float repr, the harness's expectation of the yml semantics. Known findings F9c/F9e/F9g (xlsx/ods library limitations) are attributed only when the exact bug model holds.",
    technique="runtime monitoring: round-trip oracle at the API boundary over generated parameter sets, recorders on the dataframe conversion paths"),
+ "C02": dict(category="exploration",
+   text="Recorders on Optimizer.objective_function and OptimizationGroup.get_full_penalty capture every objective evaluation scipy makes during short real "
+        "optimisations of generated schemes (1-4 datasets, 1-2 groups, link_clp true/false/auto, index dependence, axis relations, weights, scales, "
+        "constraints, relations, penalties, VP/NNLS, full models); each is compared per group (multiset + exact length) with an independent re-implementation "
+        "of the documented objective evaluated from the scheme description at the same x. Sampling over feature combinations is the right level for an "
+        "unbounded scheme space; the evidence lists the feature histogram actually covered.",
+   note="Trusted base: vf/ref/objective.py (+ align.py, intervals.py), numpy lstsq, NNLS by enumeration; harness megacomplexes with closed-form matrices. "
+        "NNLS groups in the F13 regime are decided only when they equal the optimum or scipy's answer. Ambiguous interval/alignment cases are left to C08/C09.",
+   technique="runtime monitoring: recorded objective evaluations of real optimisations checked against an independent reference objective"),
 }
